@@ -997,6 +997,22 @@ def linkrec_obs():
                note='0..2 links each symlink or hardlink, 0..2 directories, every name / target letter; link_alloc / dir_alloc / tommy_hashdyn_insert by recording stubs, list functions real')]
 
 
+PAR_WRITE = dict(region='par_write', file='cmdline/state.c', scope='static void* state_write_thread(void* arg)', begin='/* for each parity */', end='/* for each disk */', end_first_after=True, max_lines=40, expect_loops=2,
+                 proto='static void *region_par_write(struct snapraid_state *state, STREAM *f, int version, void *context)', prologue='\tunsigned l, s;', epilogue='\treturn 0;')
+PAR_READ_P = dict(region='par_read_p', file='cmdline/state.c', begin="} else if (c == 'P') {", end="} else if (c == 'Q') {", end_first_after=True, max_lines=80, expect_loops=0,
+                  proto='static void region_par_read_p(struct snapraid_state *state, STREAM *f, const char *path)', prologue='\tint ret;', epilogue='\t(void)ret;')
+PAR_READ_Q = dict(region='par_read_q', file='cmdline/state.c', begin="} else if (c == 'Q') {", end="} else if (c == 'N') {", end_first_after=True, max_lines=150, expect_loops=1,
+                  proto='static void region_par_read_q(struct snapraid_state *state, STREAM *f, const char *path)', prologue='\tint ret;', epilogue='\t(void)ret;')
+
+
+def parityrec_obs():
+    return [Ob('state.parity_records.roundtrip.l%d.s%d%d' % (lv, s0, s1), 'harness/h_parityrec.c', 'h_parity_records', inject=[PAR_WRITE, PAR_READ_P, PAR_READ_Q], defs={'PR_LEVEL': lv, 'PR_S0': s0, 'PR_S1': s1},
+               unwind=6, small_path=True, timeout=600, mem=8, cost=4, kind='bounded', bound='%d parity level(s) with %s split(s), one-letter uuids' % (lv, '/'.join(map(str, (s0, s1)[:lv]))),
+               functions=["state_write_thread: region 'for each parity' (cmdline/state.c, extracted mechanically)", "state_read_content: branches of the 'P' and 'Q' records (extracted)"],
+               note='every block count (32 bit), every split size (64 bit), uuid letter, format 2 or 3; reader against the same configuration; pathcpy / lev_config_name by stub')
+            for lv, s0, s1 in ((1, 1, 1), (1, 2, 1), (2, 2, 1), (2, 1, 2))]
+
+
 def fsempty_obs():
     return [Ob('elem.fs_is_empty', 'harness/h_fsempty.c', 'h_fs_is_empty', inject=[FS_IS_EMPTY], unwind=4, small_path=True, timeout=600, mem=6, cost=2,
                functions=['fs_is_empty + extent_disk_empty_compare_unlock (cmdline/elem.c, extracted verbatim)'],
@@ -1077,7 +1093,7 @@ def blockruns_obs():
 
 
 def c10(tier, seed):
-    return stream_obs(['h_rt32', 'h_rt64', 'h_rtle32', 'h_rtbs']) + staterec_obs(tier) + blockruns_obs() + frecord_obs() + header_obs() + maprec_obs() + holeruns_obs() + fsempty_obs() + linkrec_obs()
+    return stream_obs(['h_rt32', 'h_rt64', 'h_rtle32', 'h_rtbs']) + staterec_obs(tier) + blockruns_obs() + frecord_obs() + header_obs() + maprec_obs() + holeruns_obs() + fsempty_obs() + linkrec_obs() + parityrec_obs()
 
 
 PROPS = {
@@ -1309,7 +1325,7 @@ def c08(tier, seed):
 def c16(tier, seed):
     """format stability = every constant / encoding is pinned to a definition that is not in the repo"""
     c17 = [o for o in PROPS['C17']['obligations'](tier, seed) if o.name in ('parity.split_find.contract', 'parity.split_find.lemma')]
-    return table_obs(tier) + crc_obs(tier) + stream_obs(['h_sgetb32', 'h_sgetb64', 'h_sgetble32', 'h_sgetbs', 'h_rt32', 'h_rt64', 'h_rtle32', 'h_rtbs']) + staterec_obs(tier) + elem_obs(tier) + c17 + hash_obs(tier) + main_obs()[:1] + frecord_obs() + blockruns_obs() + header_obs() + maprec_obs() + holeruns_obs() + linkrec_obs()
+    return table_obs(tier) + crc_obs(tier) + stream_obs(['h_sgetb32', 'h_sgetb64', 'h_sgetble32', 'h_sgetbs', 'h_rt32', 'h_rt64', 'h_rtle32', 'h_rtbs']) + staterec_obs(tier) + elem_obs(tier) + c17 + hash_obs(tier) + main_obs()[:1] + frecord_obs() + blockruns_obs() + header_obs() + maprec_obs() + holeruns_obs() + linkrec_obs() + parityrec_obs()
 
 
 def c04(tier, seed):
